@@ -341,6 +341,12 @@ class WorkflowRecovery:
                                 task_type=stage.type,
                             )
                         )
+                elif any(t.status == WorkflowStatus.REDIRECT for t in stage.tasks):
+                    # A task of this stage asked for a jump: the JumpToStage queued
+                    # with its completion decides what runs next. Starting the
+                    # following task here would run it although the uninterrupted
+                    # workflow re-arms the stage first.
+                    continue
                 elif not_started_tasks and stage.start_time is not None:
                     # While before-stages are unfinished the parent's tasks must not
                     # start: the children are re-queued on their own and their
